@@ -6,6 +6,9 @@
 From EG Require Import Base.Prelude Base.Casts Model.Geometry Model.Rawdata Model.Framebuffer.
 From EG Require Import Gen.SrcGeometry Gen.SrcRawData Gen.SrcToBytes Gen.SrcFbSetPixel Gen.SrcFbSetPixelBytes Proofs.SrcLoadStoreBytes Proofs.SrcFbSetPixel.
 Set Default Timeout 60.
+(* the generated definitions that cast to usize (`as usize`, `usize::try_from`) take the width of usize as Casts.UsizeW; the model
+   of this property works with 64-bit usize (exact integers in range): taken at that width *)
+#[local] Existing Instance Casts.usize64_w.
 
 Lemma to_bytes_eq v :
   (let '(a, b) := src_RawU16_to_le_bytes v in [a; b]) = encode_bytes U16 false v /\
@@ -46,7 +49,7 @@ Definition bytes_end (t : rawty) (W : Z) (p : point) : Z := (py p * W + px p) * 
 Ltac set_pixel_bytes B t nb :=
   match goal with |- forall W H into fb p c, _ =>
   intros W H into fb p c Hx Hy; destruct fb as [data na];
-  unfold fb_set_pixel, in_fb, bytes_end, Casts.try_from_range, i32_min, i32_max in *;
+  unfold fb_set_pixel, in_fb, bytes_end, Casts.try_from_usize, Casts.try_from_range, Casts.usize_max_w, Casts.usize64_w, Casts.max_usize, i32_min, i32_max in *;
   cbn [fb_t fb_w fb_h fb_alt Framebuffer_data Framebuffer_n_assert]; change (nbytes t) with nb;
   destruct (Z.leb_spec 0 (px p)) as [X|X]; cbn [andb];
   [|destruct ((px p <=? 18446744073709551615)); reflexivity];
